@@ -27,8 +27,8 @@
    new_model (et_new / elem of the root)          ElementType::ROOT                                      tables_ok
    every SpecOps Pan / Fuel                       ELEMENTS[i], DATATYPES[i], SUBELEMENTS[a..b], ..       tables_ok12 (checked on the real tables) + every node type is a
                                                                                                           checked type (etype_ok)
-   FIXED while this was built (sites gone from Ops.v): range_loop find_sub_element(existing).unwrap() (c28d8d2),
-   detach_from / move_element_position position(..).unwrap() (dbf2768), e_set_item_name content[0] (8b342ea).
+   FIXED while this was built (sites gone from Ops.v): range_loop find_sub_element(existing).unwrap() (1b7bb3a),
+   detach_from / move_element_position position(..).unwrap() (72b7a48), e_set_item_name content[0] (a58912b).
 
    DEFINITIONS ONLY (plus Examples). *)
 From AV Require Import Base.Bytes Base.Outcome Hash.HashModel Spec.SpecOps Xml.TablesOk Tree.Heap Tree.Ops Tree.Script Tree.Inv.
